@@ -98,11 +98,12 @@ def check_program(fam, game, src_path, json_path, dump):
             fails.append(('c18 instr-count', 'script %s: debug info lists %d instructions, the written script has %d' % (s['name'], len(J), len(instrs)))); continue
         cnt['instrs'] += len(J)
         # (b) offsets are prefix sums of the sizes in the file
-        off = 0; offs = []
+        off = 0; offs = []; bad_off = False
         for k, (j, i) in enumerate(zip(J, instrs)):
             offs.append(off)
-            if j['offset'] != off:
-                fails.append(('c18 instr-offset', 'script %s instr %d (%s): debug info offset %d, the instruction starts at %d in the file' % (s['name'], k, text(j['span'])[:40], j['offset'], off))); break
+            if j['offset'] != off and not bad_off:
+                bad_off = True
+                fails.append(('c18 instr-offset', 'script %s instr %d (%s): debug info offset %d, the instruction starts at %d in the file' % (s['name'], k, text(j['span'])[:40], j['offset'], off)))
             off += i['size']
         total = sum(i['size'] for i in instrs)
         if s['end-offset'] != total:
@@ -225,7 +226,10 @@ def main(argv):
                     if 'panicked' in p[6]: fails.append(('c18 panic', p[6], open(src_path).read(), fam, game))
                     continue
                 total['compiled'] += 1
-                fl, cs, cnt = check_program(fam, game, src_path, json_path, p[6] if len(p) > 6 else '')
+                try:
+                    fl, cs, cnt = check_program(fam, game, src_path, json_path, p[6] if len(p) > 6 else '')
+                except Exception as e:       # a debug-info document the comparison cannot even walk is a failure, not a crash
+                    fl, cs, cnt = [('c18 malformed', 'the debug info cannot be compared with the file: %r' % e)], [], {}
                 for k in cnt: total[k] += cnt[k]
                 for cls, what in fl: fails.append((cls, what, open(src_path).read(), fam, game))
                 for t, d in cs: cases.append(t); descs.append(d)
